@@ -415,6 +415,18 @@ def all_updated_rules(ctx):
                 # the per-name test does not mention the group at all (e.g. membership in a flattened set of names): a name that occurs in
                 # two groups is then counted as fetched for both once either arrived
                 ok, why = False, 'the completeness test %s ignores the group of the parameter: equal names in different groups are confused' % norm(ge.elt)
+            elif len(gens) == 1 and gens[0][1] == 'self.toc.toc' and not ge.generators[0].ifs and isinstance(ge.elt, ast.BoolOp) and isinstance(ge.elt.op, ast.And) and len(ge.elt.values) == 2:
+                # all(G in values and all(N in values[G] for N in toc[G]) for G in toc): the same two memberships, nested
+                G = gens[0][0]
+                a_, b_ = ge.elt.values
+                inner_ok = isinstance(b_, ast.Call) and norm(b_.func) == 'all' and b_.args and isinstance(b_.args[0], (ast.GeneratorExp, ast.ListComp)) and \
+                    len(b_.args[0].generators) == 1 and not b_.args[0].generators[0].ifs and norm(b_.args[0].generators[0].iter) == 'self.toc.toc[%s]' % G
+                if inner_ok:
+                    N = norm(b_.args[0].generators[0].target)
+                    ok = fact_key(norm(a_)) == fact_key('%s in self.values' % G) and fact_key(norm(b_.args[0].elt)) == fact_key('%s in self.values[%s]' % (N, G))
+                else:
+                    ok = False
+                why = 'all(%s in values and all(.. in values[%s] ..) for %s in toc): both memberships for every parameter' % (G, G, G)
             else:
                 raise AnchorError('_check_if_all_updated: unrecognised all(...) form')
         elif len(loops) == 1 and isinstance(loops[0].target, ast.Name) and norm(loops[0].iter) == 'self.toc.toc' and \
